@@ -3,6 +3,7 @@
 Require Import Pearl.Base.Prelude Pearl.Base.LE Pearl.Generated.Pure Pearl.Filter.Bloom Pearl.Filter.BloomProofs
                Pearl.Filter.Hier Pearl.Filter.HierProofs Pearl.Filter.Combined Pearl.Filter.CombinedProofs Pearl.Base.AHash
                Pearl.Storage.Model Pearl.Storage.Spec Pearl.Storage.Filtered Pearl.Storage.FilteredProofs.
+Require Pearl.Generated.Facts.
 
 Section C10.
 Context {key : Type}.
@@ -185,3 +186,8 @@ Print Assumptions C10_hierarchy_slots_are_the_closed_blobs.
 Print Assumptions C10_bloom0_wf_cases.
 Print Assumptions C10_check_filters_no_false_negative.
 Print Assumptions C10_check_filter_no_false_negative.
+
+(* a group filter that was given up stays given up: it is never re-initialised from a later child alone (structural fact re-extracted on every run) *)
+Theorem C10_source_group_filter_initialised_only_when_empty : Pearl.Generated.Facts.GROUP_FILTER_INITIALISED_ONLY_WHEN_EMPTY = true.
+Proof. reflexivity. Qed.
+Print Assumptions C10_source_group_filter_initialised_only_when_empty.
